@@ -121,7 +121,7 @@ pub fn instances() -> Vec<Instance> {
     v
 }
 
-pub const SEPARATORS: &[&str] = &[" ", "\n", "\t", "//c\n", "/*c*/", "/*a/*b*/c*/"];
+pub const SEPARATORS: &[&str] = &[" ", "\n", "\t", "//c\n", "/*c*/", "/*a/*b*/c*/", "//c\r\n", "//c\r", "\r\n"];
 
 type Stream = Vec<(RefKind, usize, usize)>;
 
